@@ -747,6 +747,15 @@ pub fn ctors(out: &str) {
         o.emit(&json!({"key": format!("ctor/FXPair/{}{}", a, b), "op":"ctor", "fn":"FXPair::try_new", "a": a, "b": b, "la": a.len(), "lb": b.len(), "same": a.to_lowercase() == b.to_lowercase(),
                        "o": match &res { Outcome::Ok(Ok(_)) => "ok", Outcome::Ok(Err(_)) => "err", Outcome::Panic(_) => "panic" }}));
     }
+    // the quote constructor builds the pair itself: the same grid through `FXRate::try_new` and through the Python-facing `FXRate(...)`
+    for (a, b) in [("usd", "eur"), ("usd", "usd"), ("USD", "usd"), ("us", "eur"), ("usd", "euro"), ("eur", "EUR"), ("Gbp", "gBP")] {
+        for via in ["FXRate::try_new", "FXRate.__new__"] {
+            let res = guard(|| if via == "FXRate::try_new" { FXRate::try_new(a, b, Number::F64(1.5), None).map(|_| ()).map_err(|_| ()) }
+                               else { rateslib::verif::rates_py::quote_new(a, b, Number::F64(1.5), None).map(|_| ()).map_err(|_| ()) });
+            o.emit(&json!({"key": format!("ctor/{}/{}{}", via, a, b), "op":"ctor", "fn": via, "a": a, "b": b, "la": a.len(), "lb": b.len(), "same": a.to_lowercase() == b.to_lowercase(),
+                           "o": match &res { Outcome::Ok(Ok(_)) => "ok", Outcome::Ok(Err(_)) => "err", Outcome::Panic(_) => "panic" }}));
+        }
+    }
     // csolve : site / value count grid x allow_lsq, plus singular site sets
     for k in [2usize, 4] {
         let t: Vec<f64> = { let mut v = vec![0.0; k]; v.extend([1.0, 2.0]); v.extend(vec![3.0; k]); v };
